@@ -84,15 +84,15 @@ func genOptions(r *Repo) (string, error) {
 			expr = r.Text(kv.Value)
 			switch v := kv.Value.(type) {
 			case *ast.SelectorExpr:
-				if expr == "fox.mws" {
+				if normExpr(r, nr, v) == "$r.mws" {
 					form = "shared"
 				}
 			case *ast.CallExpr:
 				fn := r.Text(v.Fun)
-				if fn == "slices.Clone" && len(v.Args) == 1 && r.Text(v.Args[0]) == "fox.mws" {
+				if fn == "slices.Clone" && len(v.Args) == 1 && normExpr(r, nr, v.Args[0]) == "$r.mws" {
 					form = "copied"
 				}
-				if fn == "append" && len(v.Args) == 2 && v.Ellipsis != token.NoPos && r.Text(v.Args[1]) == "fox.mws" {
+				if fn == "append" && len(v.Args) == 2 && v.Ellipsis != token.NoPos && normExpr(r, nr, v.Args[1]) == "$r.mws" {
 					a0 := strings.ReplaceAll(r.Text(v.Args[0]), " ", "")
 					if a0 == "[]middleware(nil)" || a0 == "[]middleware{}" {
 						form = "copied"
@@ -126,7 +126,9 @@ func genOptions(r *Repo) (string, error) {
 		}
 		for _, el := range cl.Elts {
 			if kv, ok := el.(*ast.KeyValueExpr); ok {
-				inits = append(inits, fmt.Sprintf("(%s, %s)", leanStr(r.Text(kv.Key)), leanStr(r.Text(kv.Value))))
+				// the value with the receiver written $r, parameters $p<i>, and locals bound by `a, b, err := f(…)` written f#<i>:
+				// renaming them does not change the fact
+				inits = append(inits, fmt.Sprintf("(%s, %s)", leanStr(r.Text(kv.Key)), leanStr(normExpr(r, nr, kv.Value))))
 			}
 		}
 		return false
@@ -576,4 +578,67 @@ func (ev *resolverEval) stmt(st ast.Stmt) {
 	default:
 		ev.value, ev.done = "unknown: "+strings.Join(strings.Fields(ev.r.Text(st)), " "), true
 	}
+}
+
+// normExpr renders an expression of function fd with its receiver as $r, its parameters as $p<i> and every local that
+// is bound by a multi-value call `a, b, err := f(args)` as `<f>#<index>` (f normalised the same way).
+func normExpr(r *Repo, fd *ast.FuncDecl, e ast.Expr) string {
+	names := map[string]string{}
+	if fd.Recv != nil && len(fd.Recv.List) == 1 && len(fd.Recv.List[0].Names) == 1 {
+		names[fd.Recv.List[0].Names[0].Name] = "$r"
+	}
+	if fd.Type.Params != nil {
+		i := 0
+		for _, f := range fd.Type.Params.List {
+			for _, nm := range f.Names {
+				names[nm.Name] = fmt.Sprintf("$p%d", i)
+				i++
+			}
+		}
+	}
+	var render func(e ast.Expr) string
+	render = func(e ast.Expr) string {
+		switch x := e.(type) {
+		case *ast.Ident:
+			if v, ok := names[x.Name]; ok {
+				return v
+			}
+			return x.Name
+		case *ast.SelectorExpr:
+			return render(x.X) + "." + x.Sel.Name
+		case *ast.CallExpr:
+			var args []string
+			for _, a := range x.Args {
+				args = append(args, render(a))
+			}
+			return render(x.Fun) + "(" + strings.Join(args, ", ") + ")"
+		case *ast.ParenExpr:
+			return "(" + render(x.X) + ")"
+		case *ast.StarExpr:
+			return "*" + render(x.X)
+		case *ast.UnaryExpr:
+			return x.Op.String() + render(x.X)
+		}
+		return strings.Join(strings.Fields(r.Text(e)), " ")
+	}
+	// locals bound by a call with several results
+	ast.Inspect(fd.Body, func(n ast.Node) bool {
+		as, ok := n.(*ast.AssignStmt)
+		if !ok || len(as.Rhs) != 1 || len(as.Lhs) < 2 {
+			return true
+		}
+		call, ok := as.Rhs[0].(*ast.CallExpr)
+		if !ok {
+			return true
+		}
+		for i, l := range as.Lhs {
+			if id, ok := l.(*ast.Ident); ok && id.Name != "_" && id.Name != "err" {
+				if _, taken := names[id.Name]; !taken {
+					names[id.Name] = fmt.Sprintf("%s#%d", render(call.Fun), i)
+				}
+			}
+		}
+		return true
+	})
+	return render(e)
 }
